@@ -14,8 +14,8 @@ namespace WuffsVerif.Props.C05
 open WuffsVerif.Liveness
 
 /-- `liveness_terminates` (lattice-height half): a pass of `doWhile` that changes one of the
-loop's two slices strictly lowers `Loop.height ≤ 4·n`; `fixLoop` (the iteration itself) is
-accepted by Lean's termination checker on exactly this measure. -/
+loop's two slices strictly lowers `Loop.height ≤ 4·n`; `fixLoopWF` (the unbounded iteration
+itself) is accepted by Lean's termination checker on exactly this measure. -/
 theorem liveness_height_decreases {n : Nat} (l m : Loop n) (h : l.join m ≠ l) :
     (l.join m).height < l.height ∧ l.height ≤ 4 * n :=
   ⟨Loop.height_join_lt l m h, by unfold Loop.height; omega⟩
@@ -26,9 +26,16 @@ theorem doExpr_segment {n : Nat} (v : Nat) (hv : v < n) (r : Lv n) (e : Ex) (es 
     (h : ExprPath e es) : Seg v es (r.get v) ((doExpr r e).get v) :=
   Seg.doExpr v r hv e h
 
-/-- `fixLoop` — the iteration of `doWhile`, total by Lean's termination checker — returns a
-fixed point: one more pass from the returned slices (and the analysis state `σi` the last pass
-started from) changes nothing. -/
+/-- The model's `fixLoop` (at most `Loop.height + 1 ≤ 4·n + 1` passes, structural recursion so
+that the kernel can run it) is `doWhile`'s unbounded iteration `fixLoopWF`, which Lean's
+termination checker accepts on the lattice-height measure. -/
+theorem liveness_iteration_bounded {n : Nat} (step : Loop n → St n → Loop n × St n) (l : Loop n) (σ : St n) :
+    fixLoop step l σ = fixLoopWF step l σ ∧ l.height + 1 ≤ 4 * n + 1 :=
+  ⟨fixLoop_eq_wf step l σ, by unfold Loop.height; omega⟩
+
+/-- `fixLoop` — the iteration of `doWhile` — returns a fixed point: one more pass from the
+returned slices (and the analysis state `σi` the last pass started from) changes nothing; the
+bound on the number of passes is never what stops it. -/
 theorem liveness_terminates {n : Nat} (step : Loop n → St n → Loop n × St n) (l : Loop n) (σ : St n) :
     ∃ σi, (fixLoop step l σ).1.join (step (fixLoop step l σ).1 σi).1 = (fixLoop step l σ).1 ∧
       (fixLoop step l σ).2 = (step (fixLoop step l σ).1 σi).2 := by
@@ -68,16 +75,16 @@ theorem liveness_sound_resumables (n : Nat) (body : List Stmt) (v : Nat) (hv : v
 /-- non-vacuity: `x = read?; y = read?; write?(x); while true { yield }` — the probe that the
 unrepaired `doWhile` got wrong (`x` was judged non-resumable). With the repair both are saved. -/
 example : resumables 2
-    [.var 0, .var 1, .assign .eq (.var 0) ⟨true, true, []⟩, .assign .eq (.var 1) ⟨true, true, []⟩,
-     .assign .eq .none ⟨true, true, [0]⟩, .assign .eq .none ⟨true, true, [1]⟩,
-     .while true ⟨false, false, []⟩ [.ret true ⟨false, false, []⟩]] = [0, 1] := by decide +kernel
+    [.var 0, .var 1, .assign .eq (.var 0) ⟨true, true, [], 0⟩, .assign .eq (.var 1) ⟨true, true, [], 0⟩,
+     .assign .eq .none ⟨true, true, [0], 0⟩, .assign .eq .none ⟨true, true, [1], 0⟩,
+     .while true ⟨false, false, [], 0⟩ [.ret true ⟨false, false, [], 0⟩]] = [0, 1] := by decide +kernel
 
 /-- non-vacuity: a variable whose uses all lie between two consecutive suspension points is not
 saved (`j` of the comment at the top of liveness.go), and a path with a read after a suspension
 does exist for the saved one. -/
 example : resumables 2
-    [.assign .eq (.var 0) ⟨false, false, []⟩, .ret true ⟨false, false, []⟩,
-     .assign .eq (.var 1) ⟨false, false, [0]⟩, .assign .eq .none ⟨true, true, [1]⟩] = [0] := by decide +kernel
+    [.assign .eq (.var 0) ⟨false, false, [], 0⟩, .ret true ⟨false, false, [], 0⟩,
+     .assign .eq (.var 1) ⟨false, false, [0], 0⟩, .assign .eq .none ⟨true, true, [1], 0⟩] = [0] := by decide +kernel
 
 /-! ## Saving only the resumable variables is the ideal semantics -/
 
@@ -87,17 +94,18 @@ def savedSet (n : Nat) (body : List Stmt) : Nat → Bool :=
   fun v => decide (v ∈ resumables n body) || decide (n ≤ v)
 
 /-- **saved_equiv_ideal.** Over the abstract store semantics of `Model/LivenessRun.lean`: for
-every program `body` with `n` locals, every interpretation `cfg` of what the abstraction forgot
-(expression values — hence every input and every branch —, how often each coroutine call
-suspends, i.e. every suspension pattern), every fuel and every initial state, the run in which
-only `resumables n body` survive a suspension (all other locals restart at 0, as the generated
-C's re-declared locals do) and the ideal run (all locals persist) leave the body the same way,
-with the same events, the same log of computed values, and stores that agree on every saved
-variable. -/
-theorem saved_equiv_ideal (n : Nat) (body : List Stmt) (cfg : Cfg) (fuel : Nat) (st0 : RState) :
+every program `body` with `n` locals, every world type `W` and interpretation `cfg` of what the
+abstraction forgot (the value of each expression occurrence as a function of the world and of
+the locals it mentions — hence every input and every branch —, its effect on the world, how
+often each coroutine call suspends, i.e. every suspension pattern), every fuel and every initial
+state, the run in which only `resumables n body` survive a suspension (all other locals restart
+at 0, as the generated C's re-declared locals do) and the ideal run (all locals persist) leave
+the body the same way, with the same events, the same log of computed values, the same world,
+and stores that agree on every saved variable. -/
+theorem saved_equiv_ideal {W : Type} (n : Nat) (body : List Stmt) (cfg : Cfg W) (fuel : Nat) (st0 : RState W) :
     let rS := run (savedSet n body) cfg fuel (Task.block body) st0
     let rI := run allSaved cfg fuel (Task.block body) st0
-    rI.out = rS.out ∧ rI.evs = rS.evs ∧ rI.st.log = rS.st.log ∧ rI.st.t = rS.st.t ∧
+    rI.out = rS.out ∧ rI.evs = rS.evs ∧ rI.st.log = rS.st.log ∧ rI.st.w = rS.st.w ∧
       ∀ v, savedSet n body v = true → rI.st.store v = rS.st.store v := by
   intro rS rI
   have hpath : blockPaths body rS.evs rS.out := run_path (savedSet n body) cfg fuel (Task.block body) st0
@@ -107,12 +115,13 @@ theorem saved_equiv_ideal (n : Nat) (body : List Stmt) (cfg : Cfg) (fuel : Nat) 
     exact liveness_sound_resumables n body v hv.2 hv.1 rS.evs rS.out hpath
   have hsim := run_lockstep (savedSet n body) cfg fuel (Task.block body) (fun _ => false) st0 st0
     ⟨rfl, rfl, fun _ _ => rfl⟩ hnv
-  exact ⟨hsim.out, hsim.evs, hsim.st.log, hsim.st.t, fun v hv => hsim.st.agree v (Or.inl hv)⟩
+  exact ⟨hsim.out, hsim.evs, hsim.st.log, hsim.st.w, fun v hv => hsim.st.agree v (Or.inl hv)⟩
 
 /-- `x = …; yield; y = f(x); write_u8?(y)`, all calls suspending once -/
-def exBody : List Stmt := [.assign .eq (.var 0) ⟨false, false, []⟩, .ret true ⟨false, false, []⟩,
-  .assign .eq (.var 1) ⟨false, false, [0]⟩, .assign .eq .none ⟨true, true, [1]⟩]
-def exCfg : Cfg := ⟨fun _ t vs => t + 7 + vs.sum, fun _ => 1, fun a b => a + b⟩
+def exBody : List Stmt := [.assign .eq (.var 0) ⟨false, false, [], 0⟩, .ret true ⟨false, false, [], 0⟩,
+  .assign .eq (.var 1) ⟨false, false, [0], 0⟩, .assign .eq .none ⟨true, true, [1], 0⟩]
+/-- the world is a step counter -/
+def exCfg : Cfg Nat := ⟨fun _ t vs => t + 7 + vs.sum, fun _ t _ => t + 1, fun _ _ _ => 1, fun a b => a + b⟩
 
 /-- non-vacuity: the suspensions really happen, the non-saved variable (index 1, never live
 across a suspension) is really reset in the saved run and not in the ideal run, and the logs of
